@@ -56,6 +56,10 @@ def _resolve_task(r, target):
         if target.get('name'):
             cands = [c for c in cands if
                      snap['task'][c[1]]['name'] == target['name']]
+        if target.get('wf'):
+            cands = [c for c in cands if (snap['wf'].get(
+                snap['task'][c[1]]['workflow_execution_id']) or {}).get(
+                    'name') == target['wf']]
         if cands:
             return cands[target.get('index', 0) % len(cands)][1], snap, labels
         return None, snap, labels
